@@ -358,12 +358,22 @@ def samples(pattern, rng, n=20):
             elif op in (sre_c.ASSERT, sre_c.ASSERT_NOT, sre_c.AT):
                 pass
             elif op is sre_c.GROUPREF:
-                res.append(groups.get(av, ''))
+                g = groups.get(av, '')
+                res.append(rng.choice([g, g, g.swapcase()]))      # the rules are compiled case-insensitively: so is a back-reference
             else:
                 raise ValueError('unsupported regex node %s' % (op,))
         return ''.join(res)
     for _ in range(n * 3):
-        out.add(gen(tree, {}))
+        groups = {}
+        x = gen(tree, groups)
+        out.add(x)
+        # a rule with a back-reference: the referenced text once more behind the match (in its exact spelling and in the
+        # other letter case) - where does the token end when the closer occurs again?
+        for g in groups.values():
+            if g and ('\\%d' % 1) in pattern:
+                out.add(x + ' y ' + g)
+                out.add(x[:-len(g)] + g.swapcase() + ' y ' + g if x.endswith(g) else x + ' ' + g.swapcase() + ' y ' + g)
+                break
         if len(out) >= n:
             break
     return sorted(out)
